@@ -376,8 +376,23 @@ def run(ctx):
         it.reset([])
         r3.check(it.call_function(ts, [v], {}, None, ts.node) == want, f"to_snake_case[{v!r}]", f"-> {want!r}", ts.loc())
     dg = ctx.func("pyxform.parsing.sheet_headers:dealias_and_group_headers", "C13.R3")
-    udc = [x for x in walk_own(dg.node) if isinstance(x, ast.Assign) and isinstance(x.targets[0], ast.Name) and x.targets[0].id == "use_double_colon"]
-    r3.check(len(udc) == 1 and "any(" in norm(udc[0].value) and "'::'" in norm(udc[0].value), "dealias_and_group_headers:delimiter choice", "'::' is used for the whole sheet if any header uses it", dg.loc())
+    # the delimiter is chosen per sheet: '::' for the whole sheet as soon as one header uses it, ':' otherwise (evaluated)
+    sh_ = ctx.consts.get("pyxform.aliases", "survey_header", "C13.R3")
+    cols_ = set(ctx.consts.get("pyxform.question", "SELECT_QUESTION_FIELDS", "C13.R3"))
+    for desc, row_, want_ in (("single colons only", {"type": "text", "label:en": "L", "hint:fr": "H"}, {"type": "text", "label": {"en": "L"}, "hint": {"fr": "H"}}),
+                              ("double colons only", {"type": "text", "label::en": "L", "hint::fr": "H"}, {"type": "text", "label": {"en": "L"}, "hint": {"fr": "H"}}),
+                              ("one double colon decides for the sheet", {"type": "text", "label::en": "L", "hint:fr": "H"}, {"type": "text", "label": {"en": "L"}, "hint:fr": "H"}),
+                              ("double colon in a later column", {"type": "text", "hint:fr": "H", "bind::relevant": "1"}, {"type": "text", "hint:fr": "H", "bind": {"relevant": "1"}}),
+                              ("no delimiter at all", {"type": "text", "label": "L"}, {"type": "text", "label": "L"})):
+        itd = ctx.interp("C13.R3", hooks={"new:DealiasAndGroupHeadersResult": lambda i, a, k, n: dict(k) if k else {"headers": a[0], "data": a[1]}})
+        itd.reset([])
+        try:
+            res_ = itd.call_function(dg, [], {"sheet_name": "survey", "sheet_data": [dict(row_)], "sheet_header": [{k: None for k in row_}], "header_aliases": sh_, "header_columns": cols_,
+                                              "headers_required": {"type"}, "default_language": "default"}, None, dg.node)
+            got_ = list(res_.get("data") or ())[0] if isinstance(res_, dict) else res_
+        except Raised as e:
+            got_ = f"raises {e.exc_name}{e.exc_args}"
+        r3.check(got_ == want_, f"dealias_and_group_headers[{desc}]", f"-> {want_}", dg.loc(), why_fail=repr(got_)[:200])
     # type aliases are resolved on the *dealiased* survey rows: the `type` column is only called `type` after the
     # header pass (a sheet may spell it Type / command), so the alias pass must come after it
     w2j3 = ctx.func("pyxform.xls2json:workbook_to_json", "C13.R3")
